@@ -27,7 +27,10 @@ func cmdSweep(args []string) int {
 		kind = args[0]
 	}
 	if kind == "rename-locals" {
-		return cmdSweepRename()
+		return cmdSweepRename("locals")
+	}
+	if kind == "rename-members" {
+		return cmdSweepRename("members")
 	}
 	repo := envOr("NPVERIF_REPO", "/repo")
 	overlay := map[string][]byte{}
@@ -163,7 +166,10 @@ func cmdSweep(args []string) int {
 
 // cmdSweepRename renames every local variable, parameter and named result of the module's production code
 // (name -> nameQ) in memory and runs all properties: a rule that depends on what a local is called reports here.
-func cmdSweepRename() int {
+//
+// mode "members": every unexported function, method, (non-embedded) struct field and package-level variable instead
+// (name -> nameQ), all at once: the reference-name machinery (core/refnames.go) must recognise every one of them.
+func cmdSweepRename(mode string) int {
 	repo := envOr("NPVERIF_REPO", "/repo")
 	prog, err := core.Load(repo, nil)
 	if err != nil {
@@ -178,6 +184,30 @@ func cmdSweepRename() int {
 		}
 		info := pk.TypesInfo
 		note := func(id *ast.Ident, o types.Object) {
+			if mode == "members" {
+				if o == nil || o.Pkg() == nil || !strings.HasPrefix(o.Pkg().Path(), core.ModPath) || id.Name == "_" || id.Name == "main" || id.Name == "init" || token.IsExported(id.Name) || id.Name != o.Name() {
+					return
+				}
+				switch x := o.(type) {
+				case *types.Func:
+				case *types.Var:
+					if x.IsField() {
+						if x.Embedded() {
+							return
+						}
+					} else if x.Parent() != x.Pkg().Scope() {
+						return
+					}
+				default:
+					return
+				}
+				ps := pk.Fset.Position(id.Pos())
+				if strings.HasSuffix(ps.Filename, "_test.go") {
+					return
+				}
+				perFile[ps.Filename] = append(perFile[ps.Filename], ps.Offset+len(id.Name))
+				return
+			}
 			v, ok := o.(*types.Var)
 			if !ok || v.IsField() || v.Pkg() == nil || v.Parent() == nil || v.Parent() == v.Pkg().Scope() || id.Name == "_" {
 				return
@@ -198,6 +228,9 @@ func cmdSweepRename() int {
 		}
 		// the symbolic variable of a type switch has no object of its own
 		for _, f := range pk.Syntax {
+			if mode == "members" {
+				break
+			}
 			ast.Inspect(f, func(n ast.Node) bool {
 				if ts, ok := n.(*ast.TypeSwitchStmt); ok {
 					if as, ok := ts.Assign.(*ast.AssignStmt); ok && len(as.Lhs) == 1 {
@@ -236,6 +269,11 @@ func cmdSweepRename() int {
 		fmt.Println("sweep rename: load:", err)
 		return 2
 	}
+	if mode == "members" {
+		for _, u := range unresolvedRenames(prog2) {
+			fmt.Println("not recognised:", u)
+		}
+	}
 	ff, _ := core.LoadFindings(filepath.Join(envOr("NPVERIF_DIR", "/verif"), "known_findings.json"))
 	bad := 0
 	for _, pr := range props.All() {
@@ -260,9 +298,14 @@ func cmdSweepRename() int {
 			}
 		}
 	}
-	fmt.Printf("sweep rename-locals: %d files edited, %d reports\n", len(overlay), bad)
+	fmt.Printf("sweep rename-%s: %d files edited, %d reports (%d renames recognised)\n", mode, len(overlay), bad, len(prog2.Renames()))
 	if bad > 0 {
 		return 1
 	}
 	return 0
+}
+
+// unresolvedRenames lists the unexported functions of the reference table that are neither present nor recognised.
+func unresolvedRenames(prog *core.Program) []string {
+	return prog.UnresolvedRefs()
 }
